@@ -8,10 +8,18 @@
 (* (the earlier order: wake, wait until the caller has taken the answer,     *)
 (* unregister by key): the pop of the first dispatcher may run after the     *)
 (* caller, awake, has registered again - the second answer finds nobody.     *)
+(* Dup = TRUE: the peer repeats its first answer (dispatcher 3).  Both copies *)
+(* may find the first waiter before either unregisters it; the slower one     *)
+(* then unregisters "whatever is under the key" - by then the registration of *)
+(* the retransmission (PopByIdentity = FALSE, the tree before                 *)
+(* F-C14-pop-by-key).  PopByIdentity = TRUE: a dispatcher removes the entry   *)
+(* only while it still is the waiter it found.                                *)
 (***************************************************************************)
 EXTENDS Naturals, TLC
-CONSTANT PopFirst
+CONSTANTS PopFirst, Dup, PopByIdentity
 Rounds == {1, 2}
+Disp == IF Dup THEN {1, 2, 3} ELSE {1, 2}          \* dispatcher 3 handles the repeated copy of answer 1
+RoundOf(d) == IF d = 3 THEN 1 ELSE d
 VARIABLES cpc, round,      \* the caller and the transmission it is in
           reg,             \* which transmission's waiter is registered under the key (0: none)
           sent,            \* transmissions that reached the peer
@@ -20,7 +28,7 @@ VARIABLES cpc, round,      \* the caller and the transmission it is in
           returned         \* number of calls that returned their answer
 vars == <<cpc, round, reg, sent, recvEv, stopEv, dpc, obj, returned>>
 Init == /\ cpc = "reg" /\ round = 1 /\ reg = 0 /\ sent = {} /\ recvEv = [r \in Rounds |-> FALSE] /\ stopEv = [r \in Rounds |-> FALSE]
-        /\ dpc = [r \in Rounds |-> "idle"] /\ obj = [r \in Rounds |-> 0] /\ returned = 0
+        /\ dpc = [r \in Disp |-> "idle"] /\ obj = [r \in Disp |-> 0] /\ returned = 0
 \* caller: register, queue, wait, clear, acknowledge, return; then once more
 Reg == cpc = "reg" /\ reg' = round /\ cpc' = "enq" /\ UNCHANGED <<round, sent, recvEv, stopEv, dpc, obj, returned>>
 Enq == cpc = "enq" /\ sent' = sent \cup {round} /\ cpc' = "wait" /\ UNCHANGED <<round, reg, recvEv, stopEv, dpc, obj, returned>>
@@ -30,20 +38,24 @@ Ret == /\ cpc = "ret" /\ returned' = returned + 1
        /\ IF round = 1 THEN round' = 2 /\ cpc' = "reg" ELSE cpc' = "done" /\ UNCHANGED round
        /\ UNCHANGED <<reg, sent, recvEv, stopEv, dpc, obj>>
 \* dispatcher of the answer to transmission r
-Arrive(r) == r \in sent /\ dpc[r] = "idle" /\ dpc' = [dpc EXCEPT ![r] = "check"] /\ UNCHANGED <<cpc, round, reg, sent, recvEv, stopEv, obj, returned>>
+Arrive(r) == RoundOf(r) \in sent /\ dpc[r] = "idle" /\ dpc' = [dpc EXCEPT ![r] = "check"] /\ UNCHANGED <<cpc, round, reg, sent, recvEv, stopEv, obj, returned>>
 Check(r) == /\ dpc[r] = "check" /\ obj' = [obj EXCEPT ![r] = reg]
             /\ dpc' = [dpc EXCEPT ![r] = IF reg = 0 THEN "dropped" ELSE IF PopFirst THEN "pop" ELSE "notify"]
             /\ UNCHANGED <<cpc, round, reg, sent, recvEv, stopEv, returned>>
-Pop(r) == dpc[r] = "pop" /\ reg' = 0 /\ dpc' = [dpc EXCEPT ![r] = IF PopFirst THEN "notify" ELSE "end"]      \* by key: whatever is registered
+Pop(r) == dpc[r] = "pop" /\ reg' = (IF PopByIdentity /\ reg # obj[r] THEN reg ELSE 0) /\ dpc' = [dpc EXCEPT ![r] = IF PopFirst THEN "notify" ELSE "end"]      \* by key: whatever is registered
           /\ UNCHANGED <<cpc, round, sent, recvEv, stopEv, obj, returned>>
 Notify(r) == dpc[r] = "notify" /\ recvEv' = [recvEv EXCEPT ![obj[r]] = TRUE] /\ dpc' = [dpc EXCEPT ![r] = "waitstop"]
              /\ UNCHANGED <<cpc, round, reg, sent, stopEv, obj, returned>>
 WaitStop(r) == dpc[r] = "waitstop" /\ stopEv[obj[r]] /\ dpc' = [dpc EXCEPT ![r] = IF PopFirst THEN "end" ELSE "pop"]
                /\ UNCHANGED <<cpc, round, reg, sent, recvEv, stopEv, obj, returned>>
 Done == cpc = "done" /\ UNCHANGED vars
-Next == Reg \/ Enq \/ Wake \/ Ack \/ Ret \/ Done \/ \E r \in Rounds : Arrive(r) \/ Check(r) \/ Pop(r) \/ Notify(r) \/ WaitStop(r)
+Next == Reg \/ Enq \/ Wake \/ Ack \/ Ret \/ Done \/ \E r \in Disp : Arrive(r) \/ Check(r) \/ Pop(r) \/ Notify(r) \/ WaitStop(r)
 Spec == Init /\ [][Next]_vars /\ WF_vars(Next)
 \* an answer finds its waiter: no dispatcher drops an answer while the caller of that transmission is (or will be) waiting for it
-NoLostWake == \A r \in Rounds : dpc[r] = "dropped" => (round > r \/ cpc = "done")
+\* (an answer may be dropped when another answer under the same key - its repeated copy, or a late copy of the first answer
+\* that is indistinguishable from the answer to the retransmission - has taken the waiter it was for)
+NoLostWake == \A r \in Disp : dpc[r] = "dropped" =>
+                 \/ round > RoundOf(r) \/ cpc = "done"
+                 \/ \E e \in Disp \ {r} : obj[e] = RoundOf(r) /\ dpc[e] \in {"pop", "notify", "waitstop", "end"}
 BothReturn == <>(cpc = "done" /\ returned = 2)
 =============================================================================
